@@ -321,7 +321,7 @@ pub fn run(tier: Tier, seed: u64) -> i32 {
         }
     }
     // the other KSF families: probe KSF (all 20 suites) and Argon2 (3 suites), on the <=1-deviation tuples / default
-    let small: Vec<InTuple> = tuples.iter().filter(|t| t.devs <= 1 && t.p.pw.len() < 1000).cloned().collect();
+    let small: Vec<InTuple> = tuples.iter().filter(|t| t.devs <= 1 && !t.boundary && t.p.pw.len() < 1000).cloned().collect();
     for api in apis_of(crate::adapter::probe::suites()) {
         for t in &small {
             for k in [None, Some(2u32)] {
